@@ -492,16 +492,19 @@ impl Exec {
         Ok(Flow::Go)
     }
 
-    pub fn validate_builder(&mut self, placement: &str, stm: Col, castle: u8, ep_file: u8) -> Result<Flow, Violation> {
+    pub fn validate_builder(&mut self, placement: &str, stm: Col, castle: u8, ep_file: u8, order: u8) -> Result<Flow, Violation> {
         if !self.on(7) {
             return Ok(Flow::Go);
         }
-        let bb = match builder_from_state(placement, stm, castle, ep_file) {
+        let bb = match builder_from_state(placement, stm, castle, ep_file, order) {
             Some(b) => b,
             None => return Ok(Flow::Go),
         };
         let pos = builder_state_pos(placement, stm, castle, ep_file).unwrap();
-        let src = format!("builder[{} {:?} castle={} ep={}]", placement, stm, castle, ep_file);
+        let src = format!("builder[{} {:?} castle={} ep={} order={}]", placement, stm, castle, ep_file, order);
+        if order != 0 {
+            self.stats.cnt("reach.builder_other_call_order");
+        }
         let mut f = Fnv::new();
         f.str(&src);
         self.eval(f.0, true);
